@@ -33,7 +33,7 @@ func (c10) Assumptions() []string {
 
 func c10Corpus(env run.Env) corpus {
 	if env.Thorough {
-		return newCorpus("C10", gen.Domain{}, 40, 250000)
+		return newCorpus("C10", gen.Domain{}, 120, 5000000)
 	}
 	return newCorpus("C10", gen.Domain{}, 4, 14000)
 }
